@@ -94,11 +94,11 @@ type Semantics interface {
 type UnitKind int
 
 const (
-	KindDecl      UnitKind = iota // declared function or method
-	KindGoLit                     // go func(){...}()
-	KindDeferLit                  // defer func(){...}()
-	KindCallLit                   // func(){...}() called in place
-	KindValueLit                  // stored, passed or returned
+	KindDecl     UnitKind = iota // declared function or method
+	KindGoLit                    // go func(){...}()
+	KindDeferLit                 // defer func(){...}()
+	KindCallLit                  // func(){...}() called in place
+	KindValueLit                 // stored, passed or returned
 )
 
 // Unit is an analysed function body.
